@@ -1,10 +1,15 @@
 """C10 - pipeline property judged by spec/QuillContract.tla (flag ok10) through TLC trace validation (spec/TraceQuill.tla) of
 executions of the real frontend/backend recorded by harness/h_sys; scenario family in props/sysfam.py; implementation-shaped
-exploration in spec/Quill.tla."""
-import sysfam, qsys
+exploration in spec/Dispatch.tla (tools/dispmodel.py): exhaustive small-scope model of the level check and the per-sink dispatch
+loop, every transition exported as a behaviour, judged by the contract and replayed on the real code."""
+import os
+import sysfam, qsys, dispmodel
 
 
 def run(ck):
+    dispmodel.run_for(ck, "C10")
+    if os.environ.get("VERIF_PART") == "model":      # analysis aid: the design-level part alone
+        return
     sysfam.run_family(ck, "C10", 400 if ck.tier == "quick" else 3000)
 
 
